@@ -577,7 +577,9 @@ func c08HonestBlocks(txs []*wire.MsgTx) []*wire.MsgBlock {
 
 // all JSON values of the given depth over a small atom alphabet, as the value of keys "hash"/"x"
 func c08JSONDocs(depth int) []string {
-	atoms := []string{`"ab"`, `"zz"`, `"` + strings.Repeat("0f", 32) + `"`, `1`, `true`, `null`, `{}`, `[]`}
+	// strings of exactly the length of a hash in hex (64) that are NOT hex, and its neighbours 63 / 65
+	atoms := []string{`"ab"`, `"zz"`, `"` + strings.Repeat("0f", 32) + `"`, `1`, `true`, `null`, `{}`, `[]`,
+		`"` + strings.Repeat("0", 63) + `g"`, `"` + strings.Repeat("zz", 32) + `"`, `"` + strings.Repeat("0f", 31) + `0"`, `"` + strings.Repeat("0f", 32) + `0"`, `"` + strings.Repeat(" ", 64) + `"`}
 	vals := map[int][]string{0: atoms}
 	for d := 1; d <= depth; d++ {
 		prev := vals[d-1]
@@ -659,6 +661,7 @@ func c08JSONDocs(depth int) []string {
 	{
 		big := []string{`1e400`, `1e100000`, `1e1000000`, `2e4000000`, `-1e1000000`, `1E+1000000`, `1.5e1000000`, `1e-1000000`, `0e1000000`, `123456789e999999`,
 			strings.Repeat("7", 100000), `0.` + strings.Repeat("3", 100000),
+			`"` + strings.Repeat("0", 63) + `g"`, `"` + strings.Repeat("zz", 32) + `"`, `"` + strings.Repeat("0f", 31) + `0"`, `"` + strings.Repeat("0f", 32) + `0"`, `"` + strings.Repeat(" ", 64) + `"`, `"` + strings.Repeat("0f", 32) + `"`, `"g` + strings.Repeat("0", 63) + `"`, `"` + strings.Repeat("0F", 32) + `"`,
 			`"` + strings.Repeat("0f", 50000) + `"`, `"` + strings.Repeat("0f", 500000) + `"`, `"` + strings.Repeat("zz", 500000) + `"`, `"` + strings.Repeat("0f", 49999) + `0"`}
 		for _, v := range big {
 			docs = append(docs, v, `{"x":`+v+`}`, `{"hash":`+v+`}`, `[`+v+`]`, `[1,`+v+`]`, `{"x":[1,`+v+`]}`, `{"x":[`+v+`,1]}`, `{"x":{"y":`+v+`}}`, `{"x":["ab",`+v+`]}`, `{"x":[{"y":`+v+`}]}`)
